@@ -15,7 +15,7 @@ RULE = ("pairs (history, continuation): the continuation runs on the cleared reg
 
 def one(cat, rng, stack, cycles):
     b = RB(ID, cat, rng, stack)
-    b.idx_cmp = "idx"
+    b.idx_cmp = "status"   # index values are opaque here: equality is checked between the two real regions
     b.new("a")
     b.new("t")
     for c in range(cycles):
